@@ -758,6 +758,14 @@ class Normalizer:
             self.cache[t] = r
         return r
 
+    def _merge_phi_stores(self, t):
+        """phi(c, store(b, i, x), store(b, i, y)) -> store(b, i, phi(c, x, y)); t itself otherwise"""
+        if isinstance(t, Term) and t.op == "phi" and len(t.args) == 3:
+            c, p, q = t.args
+            if isinstance(p, Term) and isinstance(q, Term) and p.op == "store" and q.op == "store" and len(p.args) == 3 and len(q.args) == 3 and self.freeze(p.args[1]) == self.freeze(q.args[1]) and self.nf(p.args[0]) == self.nf(q.args[0]):
+                return Term("store", p.args[0], p.args[1], Term("phi", c, p.args[2], q.args[2]))
+        return t
+
     def freeze(self, x):
         if isinstance(x, Term):
             if x.op == "const" and isinstance(x.args[0], Fraction):
@@ -860,9 +868,20 @@ class Normalizer:
             c0 = a[0]
             if isinstance(c0, Term) and c0.op == "not" and len(c0.args) == 1:
                 return self.nf(Term("phi", c0.args[0], a[2], a[1]))  # if not c: A else: B
+            # the same slot of the same array written on both arms: one store of the selected value
+            mg = self._merge_phi_stores(t)
+            if mg is not t:
+                return self.nf(mg)
             x, y = self.nf(a[1]), self.nf(a[2])
             if x == y:
                 return x
+            # what both arms add is added regardless: phi(c, u + p, u + q) = u + phi(c, p, q)
+            dx, dy = dict(x), dict(y)
+            common = {m: k for m, k in dx.items() if dy.get(m) == k}
+            if common and len(common) < max(len(dx), len(dy)):
+                rx = _mk({m: k for m, k in dx.items() if m not in common})
+                ry = _mk({m: k for m, k in dy.items() if m not in common})
+                return p_add(_mk(common), P_atom(A("phi", self.freeze(a[0]), wrap(rx), wrap(ry))))
             # `if len(idx) > 0: b[idx] = v` : a store through an empty index is the identity
             # only the exact guard "the index array is non-empty" (len(idx) > 0, 0 < len(idx),
             # len(idx) != 0, len(idx) >= 1, truthiness of len) on the taken branch qualifies
@@ -886,7 +905,7 @@ class Normalizer:
         if op == "not" and isinstance(a[0], Term) and a[0].op == "not":
             return self.nf(a[0].args[0])
         if op == "getitem":
-            base, idx = a[0], a[1]
+            base, idx = self._merge_phi_stores(a[0]), a[1]
             # x[i:i+1] selects element i and keeps a unit axis (an identity reshape)
             if isinstance(idx, Term) and idx.op == "slice1":
                 idx = idx.args[0]
